@@ -110,7 +110,7 @@ class WcBase(plumpy.WorkChain):
         dones = {}
         for prev in self.WCPROGRAM['steps'][:i]:
             for key, idx, kind, _how in prev['reg']:
-                ctxvals[key] = _jsonable(vars(self.ctx).get(key, MISSING))  # (not ctx.get: a key may be called 'get')
+                ctxvals[key] = _jsonable(vars(self.ctx).get(key, MISSING) if key in ('get', 'setdefault') else self.ctx.get(key, MISSING))  # (a key may be called 'get')
                 dones[str(idx)] = env.awaitable_done(idx, kind)
         self._t('enter', i, self.paused, self.status, ctxvals, dones, plumpy.Process.current() is self)
         self.set_status('S%d' % i)
